@@ -213,6 +213,7 @@ int iauth_routing(const struct iauth_request *req, char routing[], size_t routin
 struct iauth_request *iauth_validate_request(const char routing[])
 {
     struct iauth_request *req;
+    char canon[ROUTINGLEN];
     char *sep;
     unsigned long serial;
     long lid;
@@ -236,6 +237,13 @@ struct iauth_request *iauth_validate_request(const char routing[])
     /* Look up the client and check that it is the correct one. */
     req = set_find(iauth_reqs, &id);
     if (!req || serial != req->serial)
+        return NULL;
+
+    /* strtol() also reads signs, "0x" and an empty number; only the
+     * text we sent ourselves names the request.
+     */
+    iauth_routing(req, canon, sizeof(canon));
+    if (strcmp(canon, routing))
         return NULL;
 
     return req;
